@@ -51,6 +51,8 @@ def realise(ranks, spacing):
         return np.where(r == 0, 0.0, 0.5 * 3.0 ** r)
     if spacing == "off":  # no zeros: lowest rank positive
         return 0.25 + r * r
+    if spacing == "eps":  # ranks separated by 2**-26 relative: distinct in float64, indistinguishable in float32
+        return 1.0 + r * 2.0 ** -26
     raise ValueError(spacing)
 
 
@@ -347,8 +349,8 @@ def run_item(it):
 
 def run(rep, tier, seed, parts=None):
     common.load_wavespectra()
-    rep.rule = ("every weak ordering (tie pattern included) of the nf frequency bins, nf=3..6 (7 in thorough), realised with 3 value "
-                "spacings (linear with zero, geometric with zero, strictly positive) on 3 frequency families; 2-D: each ordering x "
+    rep.rule = ("every weak ordering (tie pattern included) of the nf frequency bins, nf=3..6 (7 in thorough), realised with 4 value "
+                "spacings (linear with zero, geometric with zero, strictly positive, and ranks 2**-26 apart - distinct only in float64) on 3 frequency families; 2-D: each ordering x "
                 "direction grids nd in {4,8} x every cyclic assignment of 7 directional patterns to the frequency bins (so the peak "
                 "bin's direction/spread always differ from its neighbours'); all peak statistics of each spectrum must agree with "
                 "one admissible peak bin of an independent peak finder. Non-trivial = ordering with >=1 interior strict local maximum.")
@@ -361,8 +363,10 @@ def run(rep, tier, seed, parts=None):
     for nf in nfs:
         orders = gen.weak_orderings(nf)
         for fname, f in freq_fams(nf, seed):
-            for sp in ("lin", "geo", "off"):
-                if nf >= 7 and sp == "off":
+            for sp in ("lin", "geo", "off", "eps"):
+                if nf >= 7 and sp in ("off", "eps"):
+                    continue
+                if sp == "eps" and fname != "log":
                     continue
                 items.append(dict(f=f, d=None, orders=orders, spacing=sp, fam=fname))
         if nf <= (6 if tier == "thorough" else 5) or True:
@@ -375,7 +379,7 @@ def run(rep, tier, seed, parts=None):
                     if nf >= 7 and sh >= 2:
                         continue
                     fname, f = fams[(sh + nd) % 3]
-                    sp = ("lin", "geo", "off")[sh % 3]
+                    sp = ("lin", "geo", "off", "eps")[sh % 4] if nf <= 5 else ("lin", "geo", "off")[sh % 3]
                     items.append(dict(f=f, d=d, orders=orders, spacing=sp, shift=sh, fam=fname,
                                       layout="time_site" if sh == 1 else "site"))
     items.sort(key=lambda it: (len(it["f"]), 0 if it["d"] is None else len(it["d"])))
